@@ -118,6 +118,8 @@ def main(argv=None):
         vc.discharge()
         code = triage(vc, mod, report, args)
         code = run_native_standins(vc, prop, report, code)
+        if args.tier == "thorough":
+            code = thorough_extras(vc, prop, report, code)
     except source.SourceError as e:
         report["errors"].append(f"SourceError: {e}")
         code = 3
@@ -303,6 +305,32 @@ def run_native_standins(vc, prop, report, code):
         elif status != "not-reproduced":
             report["errors"].append(f"bounded stand-in {chk['name']}: {status}: {out.strip().splitlines()[-1] if out.strip() else ''}")
             code = max(code, 3) if code != 1 else code
+    return code
+
+
+def thorough_extras(vc, prop, report, code):
+    """thorough tier: (1) second-solver re-check and vacuity probe of the proved obligations, (2) sensitivity: the seeded change of this
+    property (seeded/<id>/patch.diff) applied to a scratch copy of the repository must make the quick check report a violation"""
+    summ = vc.thorough_recheck()
+    for oid in summ["cvc5_disagrees"]:
+        report["undecided"].append(f"{oid}: proved by z3 / normaliser but refuted by cvc5 (back ends disagree)")
+        code = max(code, 2) if code != 1 else code
+    for oid in summ["hypotheses_contradictory"]:
+        report["errors"].append(f"{oid}: hypotheses are contradictory (vacuous proof)")
+        code = 3 if code != 1 else code
+    seed_dir = os.path.join(ROOT, "seeded", prop)
+    sweep = os.path.join(ROOT, "tools", "seed_sweep.sh")
+    if os.path.isfile(os.path.join(seed_dir, "patch.diff")) and os.path.isfile(sweep) and not os.environ.get("PYVC_NO_SEED_SWEEP"):
+        env = dict(os.environ, PYVC_NO_SEED_SWEEP="1", VERIF_TIER="quick", SEED_SCRATCH=f"/tmp/pyvc_sens_{prop}_{os.getpid()}")
+        try:
+            p = subprocess.run([sweep, prop], capture_output=True, text=True, timeout=3600, env=env, cwd=ROOT)
+            line = (p.stdout.strip().splitlines() or [""])[-1]
+            detected = f"{prop}: exit 1" in line
+            vc.extra["seeded_change_sensitivity"] = {"seed": f"seeded/{prop}/patch.diff", "detected": detected, "sweep_output": line[:300]}
+            if not detected:
+                report.setdefault("notes", []).append(f"sensitivity: the seeded change of {prop} is not detected ({line[:120]})")
+        except subprocess.TimeoutExpired:
+            vc.extra["seeded_change_sensitivity"] = {"seed": f"seeded/{prop}/patch.diff", "detected": None, "sweep_output": "timeout"}
     return code
 
 
